@@ -331,3 +331,88 @@ def is_space_run(pattern: str) -> bool:
     if op is sre_c.IN:
         return all((o is sre_c.CATEGORY and a is sre_c.CATEGORY_SPACE) or (o is sre_c.LITERAL and chr(a).isspace()) for o, a in av)
     return False
+
+
+def group_spans(pattern: str) -> List[Tuple[int, int, Optional[str]]]:
+    """(start, end, name) of every capturing group's *body* in the pattern text, in group-number order."""
+    out: List[Tuple[int, int, Optional[str]]] = []
+    stack: List[Tuple[int, bool, Optional[str], int]] = []  # (body start, capturing, name, slot)
+    i, n = 0, len(pattern)
+    in_class = False
+    while i < n:
+        c = pattern[i]
+        if c == "\\":
+            i += 2
+            continue
+        if in_class:
+            if c == "]":
+                in_class = False
+            i += 1
+            continue
+        if c == "[":
+            in_class = True
+            i += 1
+            if i < n and pattern[i] == "^":
+                i += 1
+            if i < n and pattern[i] == "]":
+                i += 1
+            continue
+        if c == "(":
+            name = None
+            capturing = True
+            j = i + 1
+            if pattern.startswith("(?P<", i):
+                k = pattern.index(">", i)
+                name = pattern[i + 4 : k]
+                j = k + 1
+            elif pattern.startswith("(?", i):
+                capturing = False
+                # skip the extension marker up to ':' for (?:...) ; other extensions are not bodies we need
+                j = i + 3 if pattern.startswith("(?:", i) else i + 2
+            slot = -1
+            if capturing:
+                out.append((j, -1, name))
+                slot = len(out) - 1
+            stack.append((j, capturing, name, slot))
+            i = j
+            continue
+        if c == ")":
+            if stack:
+                start, capturing, name, slot = stack.pop()
+                if capturing:
+                    out[slot] = (start, i, name)
+            i += 1
+            continue
+        i += 1
+    return out
+
+
+def group_text(pattern: str, which) -> Optional[str]:
+    """Body text of a capturing group given by number (1-based) or name."""
+    spans = group_spans(pattern)
+    for idx, (a, b, name) in enumerate(spans, start=1):
+        if which == idx or (isinstance(which, str) and which == name):
+            return pattern[a:b] if b >= 0 else None
+    return None
+
+
+def leading_optional_digits(pattern: str) -> bool:
+    """The pattern starts (after ^) with an optional capturing group whose body is one or more decimal digits."""
+    try:
+        items = _items(parse(pattern))
+    except re.error:
+        return False
+    if items and items[0][0] is sre_c.AT:
+        items = items[1:]
+    if not items or items[0][0] is not sre_c.MAX_REPEAT:
+        return False
+    lo, hi, body = items[0][1]
+    b = _items(body)
+    if (lo, hi) != (0, 1) or len(b) != 1 or b[0][0] is not sre_c.SUBPATTERN:
+        return False
+    inner = _items(b[0][1][3])
+    if len(inner) != 1 or inner[0][0] is not sre_c.MAX_REPEAT:
+        return False
+    lo2, hi2, body2 = inner[0][1]
+    b2 = _items(body2)
+    return lo2 == 1 and hi2 == MAXREPEAT and len(b2) == 1 and b2[0][0] is sre_c.IN and list(b2[0][1]) == [(sre_c.CATEGORY, sre_c.CATEGORY_DIGIT)]
